@@ -255,6 +255,46 @@ pub fn hostile_names() -> Vec<String> {
     v
 }
 
+/// Every string of one or two characters over the characters that matter to the escaping rules
+/// of the printers and generators (backslash, both quotes, NUL, newline, DEL, a non-ASCII scalar,
+/// and the letters / digits / braces that follow a backslash in an escape sequence): a printer
+/// that post-processes escaped text can confuse a literal backslash followed by such a character
+/// with an escape sequence.
+pub fn escape_pair_names() -> Vec<String> {
+    let alpha = ['\\', '"', '\'', '0', 'u', 'x', 'n', 't', '{', '}', '\u{0}', '\n', '\u{7f}', 'é', ' ', '$', '`'];
+    let mut v: Vec<String> = alpha.iter().map(|c| c.to_string()).collect();
+    for a in alpha {
+        for b in alpha {
+            v.push(format!("{a}{b}"));
+        }
+    }
+    // longer witnesses of the same classes
+    for s in ["a\\0b", "path\\01", "C:\\dir\\", "get\\", "\\u{0}", "\\x00", "\\\\", "a\\\"b", "\\'", "x\u{0}0", "\u{0}\u{0}"] {
+        v.push(s.to_string());
+    }
+    v.sort();
+    v.dedup();
+    v
+}
+
+/// One program per escape-relevant name: the name as record field label, variant tag and method name.
+pub fn escape_programs() -> Vec<Prog> {
+    escape_pair_names()
+        .into_iter()
+        .map(|n| Prog {
+            defs: vec![(
+                "t".to_string(),
+                PTy::Record(vec![
+                    (PLabel::Named(n.clone()), p(Prim::Nat)),
+                    (PLabel::Id(7), PTy::Variant(vec![(PLabel::Named(n.clone()), p(Prim::Null)), (PLabel::Id(1), p(Prim::Text))])),
+                ]),
+            )],
+            actor: Some(PActor::Service(PTy::Service(vec![(n.clone(), PTy::func(vec![PTy::var("t")], vec![], vec![]))]))),
+            actor_name: None,
+        })
+        .collect()
+}
+
 /// Definition names: valid Candid identifiers that are not Candid keywords, including
 /// target-language keywords and names that collide after case conversion.
 pub fn def_names() -> Vec<String> {
